@@ -579,12 +579,51 @@ func mutate(r *vh.Rand, b base, now time.Time) (raw, rk []byte, mut, expect stri
 	}
 }
 
+// objRecord builds, from explicit parameters only (Ed25519 signatures are deterministic), the in-memory
+// record of an `obj` op: Validate is called on the object itself, never on bytes, so that its own
+// proto.Size check (unreachable through UnmarshalRecord, which rejects oversize input first) runs.
+func objRecord(skHex string, vlen int, seq uint64, eol time.Time, v1 bool) (*ipns.Record, ipns.Name, int) {
+	sk, err := ic.UnmarshalPrivateKey(vh.UnHex(skHex))
+	if err != nil {
+		panic(err)
+	}
+	pid, _ := peer.IDFromPrivateKey(sk)
+	val, err := path.NewPath("/ipfs/bafkqaaa/" + strings.Repeat("a", vlen))
+	if err != nil {
+		panic(err)
+	}
+	rec, err := ipns.NewRecord(sk, val, seq, eol, time.Minute, ipns.WithV1Compatibility(v1))
+	if err != nil {
+		panic(err)
+	}
+	raw, err := ipns.MarshalRecord(rec)
+	if err != nil {
+		panic(err)
+	}
+	return rec, ipns.NameFromPeer(pid), len(raw) // proto.Marshal output length = proto.Size
+}
+
 func gen(r *vh.Rand, tier string, n int, emit func(vh.Case)) {
 	r = vh.NewRand(r.U64())
 	now := time.Now()
 	for i := 0; i < n; i++ {
 		cr := r.Fork()
 		c := vh.Case{ID: strconv.Itoa(i)}
+		if cr.Chance(1, 6) {
+			k := allKeys()[cr.Intn(3)] // the Ed25519 keys
+			skb, _ := ic.MarshalPrivateKey(k.sk)
+			v1 := cr.Bool()
+			// value lengths around the point where the message crosses MaxRecordSize
+			vlen := vh.Pick(cr, []int{10, 4000, 9000, 9990, 10050, 10090, 12000})
+			if v1 {
+				vlen = vh.Pick(cr, []int{10, 2000, 4950, 4990, 5020, 5060, 8000})
+			}
+			vlen += cr.Intn(40)
+			seq := uint64(cr.Intn(3))
+			eol := now.Add(time.Hour).Truncate(time.Second)
+			_, _, size := objRecord(fmt.Sprintf("%x", skb), vlen, seq, eol, v1)
+			c.Ops = append(c.Ops, fmt.Sprintf("obj size=%d vlen=%d seq=%d eol=%s now=%s v1=%v sk=%x", size, vlen, seq, eolNs(eol), eolNs(now), v1, skb))
+		}
 		for j, m := 0, 1+cr.Intn(4); j < m; j++ {
 			b := mkBase(cr, now)
 			raw, rk, mut, expect := mutate(cr, b, now)
@@ -648,6 +687,21 @@ func kvOf(f []string, k string) string {
 func exec(c vh.Case, o *vh.Out) {
 	for _, line := range c.Ops {
 		f := strings.Fields(line)
+		if f[0] == "obj" {
+			eolI, _ := new(big.Int).SetString(kvOf(f, "eol"), 10)
+			seq, _ := strconv.ParseUint(kvOf(f, "seq"), 10, 64)
+			rec, name, size := objRecord(kvOf(f, "sk"), vh.Atoi(kvOf(f, "vlen")), seq, time.Unix(0, eolI.Int64()), kvOf(f, "v1") == "true")
+			res := class(ipns.ValidateWithName(rec, name))
+			if res == "ok" && size > ipns.MaxRecordSize {
+				o.Fail("valid-but-oversize", "in-memory record of %d bytes validates", size)
+			}
+			if res == "ok" {
+				o.Nontrivial()
+			}
+			o.Kind("obj-" + res)
+			o.Emit("size=%d vwn=%s", size, res)
+			continue
+		}
 		if f[0] != "val" {
 			o.Emit("bad-op")
 			continue
